@@ -63,12 +63,24 @@ def install():
         with NoTracing():
             is_sym = isinstance(obj, SymbolicInt)
             user_fmt = None
+            exc_text = None
+            if isinstance(obj, BaseException) and not format_spec and type(obj).__str__ in (BaseException.__str__, Exception.__str__):
+                # f"{e}": the text of a one-argument exception is that argument (possibly a symbolic string): hand it over unrealised
+                if len(obj.args) == 1 and isinstance(obj.args[0], (str, bl.AnySymbolicStr)):
+                    exc_text = obj.args[0]
+                elif len(obj.args) == 0:
+                    exc_text = ""
+            if exc_text is None and isinstance(obj, BaseException) and not format_spec and (hasattr(type(obj), "__ch_deep_realize__") or any(
+                    not isinstance(a, (int, float, str, bytes, bool, type(None))) for a in obj.args)):
+                exc_text = "<" + type(obj).__name__ + ">"   # several / non-text arguments holding symbolic values (e.g. UnicodeDecodeError)
             if not is_sym and not isinstance(obj, (int, float, str, bytes, bool, type(None))):
                 f = getattr(type(obj), "__format__", None)
                 if f is not None and f is not object.__format__ and getattr(f, "__code__", None) is not None:
                     user_fmt = f      # a Python-level __format__ (repository class or harness stub): no realisation of the object
         if is_sym:
             return sym_format(obj, format_spec)
+        if exc_text is not None:
+            return exc_text
         if user_fmt is not None:
             return user_fmt(obj, format_spec)
         return orig(obj, format_spec)
